@@ -48,9 +48,12 @@ ASSUMPTIONS = [
     'there earlier (labelled links), astype / arithmetic / comparisons / deepcopy / unknown lower-case calls are fresh objects, '
     'Capitalised calls keep references to their arguments, attribute / item assignment, mutating methods and augmented '
     'assignment write, copy=False converter calls write deeply; loops and comprehension bodies run under an opaque condition; '
-    'constructors with more than 2^5 paths have the arms of their branches merged; calls the extractor does not know are '
-    'read-only (checked by the argument snapshots of every generated call and, per converter, by comparing the observed '
-    'same-object / altered-argument behaviour with what the program allows)',
+    'constructors with more than 2^5 paths have the arms of their branches merged; highdicom-internal callees are inlined '
+    '(depth 4; an internal callee that is handed a reference and is not inlined puts the entry on the skipped list); EXTERNAL '
+    'callees (pydicom, numpy, builtins, enums; listed per entry in Generated/T20*.lean) are assumed not to write their '
+    'arguments; loops are unrolled twice; a try body is assumed to run to completion before a handler; a list and a pydicom '
+    'Sequence assigned to an attribute are both treated as aliased (checked by the argument snapshots of every generated call '
+    'and, per converter, by comparing the observed same-object / altered-argument behaviour with what the program allows)',
     'attribute VRs at the guard sites are those of the pydicom data dictionary',
     'write / read-back clauses: pydicom writer and validator are exercised, not modelled (support only)',
 ]
